@@ -1405,5 +1405,118 @@ theorem override_equiv {env : Env} {f : FileCfg} {c : CliOpts}
       simp only [configFrom, FileCfg.withCli, hst', hg', hperr, hrts', hgb', hets']
     rw [hcfg', hdbE, settingsCore_db_empty hdb hne]
 
+/-! ### non-vacuity: concrete runs, and the pinned tree at the three repaired points -/
+
+def envX : Env :=
+  { cwd := "/w/cwd", cfgDir := "/w/conf", tsOk := fun s => s == "2024-01-20",
+    dbOk := fun p _ => p == "/w/conf/p.db" || p == "/w/cwd/q.db" }
+
+def fileX : FileCfg :=
+  { strict := false, audit := false, storage := "fs",
+    fs := some ⟨none, "txns", ".txn"⟩,
+    git := some ⟨some "repo.git", none, "main", "txns", "txn"⟩,
+    price := some ⟨"p.db", "none"⟩,
+    accounts := ["a:cash", "e:food"], commodities := ["EUR", "USD"], permitEmpty := false,
+    targets := ["balance", "register"], selGlobal := some ["a:.*"], commodity := none,
+    selBalance := some ["e:.*"], selBalGrp := none, selRegister := none,
+    groupBy := "month", exportTargets := [], equityAccount := "Equity:Balance", selEquity := none }
+
+/-- no options: every key comes from the file (per-report selector over the global one, `.txn` ↦ `txn`,
+    paths relative to the configuration file) -/
+example : effective envX fileX {} = .ok
+    { strict := false, audit := false, reports := [.balance, .register], exports := [],
+      selBalance := ["e:.*"], selBalGrp := ["a:.*"], selRegister := ["a:.*"], selEquity := ["a:.*"],
+      commodity := none, lookup := .none, priceLookup := .none, priceDb := none, groupBy := .month,
+      input := .fs "/w/conf/txns" "txn" } := by decide
+
+/-- many options at once: each present option decides its key -/
+def cliX : CliOpts :=
+  { strict := some true, audit := some true, reports := some ["balance-group"], exports := some ["identity"],
+    accounts := some ["x", ""], reportCommodity := some "EUR", pricedb := some "q.db",
+    lookupType := some "given-time", priceBefore := some "2024-01-20", groupBy := some "iso-week",
+    inputGitRef := some "side" }
+
+example : effective envX fileX cliX = .ok
+    { strict := true, audit := true, reports := [.balanceGroup], exports := [.identity],
+      selBalance := ["x"], selBalGrp := ["x"], selRegister := ["x"], selEquity := ["x"],
+      commodity := some "EUR", lookup := .givenTime, priceLookup := .givenTime "2024-01-20",
+      priceDb := some "/w/cwd/q.db", groupBy := .isoWeek,
+      input := .git "/w/conf/repo.git" "txns" (.reference "side") "txn" } := by decide
+
+/-- the hypotheses of `override_equiv` are satisfiable, and both sides are an accepted run -/
+example : isAbs envX.cwd = true ∧ (∀ s, envX.dbOk "" s = false) ∧ namesSimple fileX cliX = true ∧
+    clapAccepts cliX = true ∧ (∃ cfg, configFrom envX fileX = .ok cfg) ∧
+    (effective envX (fileX.withCli envX cliX) cliX.residual).isOk = true := by
+  refine ⟨by decide, by intro s; cases s <;> decide, by decide, by decide, ⟨_, rfl⟩, by decide⟩
+
+/-- rejected combinations -/
+example : effective envX fileX { inputFile := some "j.txn", inputStorage := some "git" } = .err := by decide
+example : effective envX fileX { inputFsDir := some "d" } = .err := by decide
+example : effective envX fileX { inputGitRepo := some "r", inputGitDir := some "d" } = .err := by decide
+example : effective envX fileX { inputGitRef := some "a", inputGitCommit := some "b" } = .err := by decide
+example : effective envX fileX { priceBefore := some "2024-01-20" } = .err := by decide
+example : effective envX fileX { lookupType := some "given-time", reportCommodity := some "EUR" } = .err := by decide
+example : effective envX fileX { lookupType := some "last-price" } = .err := by decide
+example : effective envX fileX { strict := some true, reportCommodity := some "SEK" } = .err := by decide
+example : effective envX fileX { strict := some true, exports := some ["equity"] } = .err := by decide
+example : Rejected { inputFile := some "j.txn", inputStorage := some "git" } := .file_with_storage rfl rfl
+
+/-- the input table on the example file -/
+example : (effective envX fileX { inputFile := some "j.txn" }).map (·.input) = .ok (.file "/w/cwd/j.txn") := by decide
+example : (effective envX fileX { inputFsDir := some "/d", inputFsExt := some ".jrnl" }).map (·.input) =
+    .ok (.fs "/d" "jrnl") := by decide
+example : (effective envX fileX { inputStorage := some "git" }).map (·.input) =
+    .ok (.git "/w/conf/repo.git" "txns" (.reference "main") "txn") := by decide
+example : (effective envX fileX { inputGitCommit := some "abc123" }).map (·.input) =
+    .ok (.git "/w/conf/repo.git" "txns" (.commitId "abc123") "txn") := by decide
+example : (effective envX fileX { inputGitRepo := some "r.git", inputGitDir := some "d", inputGitRef := some "m" }).map
+    (·.input) = .ok (.git "/w/cwd/r.git" "d" (.reference "m") "txn") := by decide
+
+/-! #### the pinned tree (before the proposed fixes) at the three repaired points -/
+
+/-- F15, pinned `get_overlaps`: `account_overlap: self.accounts.clone()` -/
+def accountOverlapOf_pinned (a : Option (List String)) : Option (List String) := a
+
+/-- F15 witness: on the pinned tree `--accounts ""` is the selector list `[""]`, which is *not* the select-all
+    selector (it becomes the pattern `^(?:)$` that matches no account name) – against the documentation -/
+theorem F15_witness_pinned : selectsAll ((accountOverlapOf_pinned (some [""])).getD []) = false := by decide
+theorem F15_fixed : selectsAll ((accountOverlapOf (some [""])).getD []) = true := by decide
+
+/-- F191, pinned `try_from`: `cfg_rpt_commodity` is computed (and `?`-propagated) before the overlap is looked at -/
+def reportCommodityOf_pinned (cfg : Cfg) (strict : Bool) (ov : Option String) : Outcome (Option String) :=
+  match (match cfg.commodity with
+         | none => Outcome.ok none
+         | some c => (innerGetOrCreateCommodity cfg.commodities cfg.permitEmpty strict c).map (fun (r : String × List String) => some r.1)) with
+  | .err => .err
+  | .undef => .undef
+  | .ok fileRc =>
+    match ov with
+    | some c => (innerGetOrCreateCommodity cfg.commodities cfg.permitEmpty strict c).map (fun (r : String × List String) => some r.1)
+    | none => .ok fileRc
+
+def cfgSEK : Cfg :=
+  { strict := false, audit := false, storage := .fs, fs := none, git := none, dbPath := "", lookup := .none,
+    accounts := [], commodities := ["EUR"], permitEmpty := false, targets := [], commodity := some "SEK",
+    selBalance := [], selBalGrp := [], selRegister := [], groupBy := .month, exportTargets := [],
+    equityAccount := "Equity", selEquity := [] }
+
+/-- F191 witness: file `commodity = "SEK"` (undeclared), options `--strict.mode true --report.commodity EUR`:
+    the pinned tree fails on the shadowed file value; with the value written into the file it succeeds -/
+theorem F191_witness_pinned :
+    reportCommodityOf_pinned cfgSEK true (some "EUR") = .err ∧
+    reportCommodityOf_pinned { cfgSEK with commodity := some "EUR" } true none = .ok (some "EUR") := by decide
+theorem F191_fixed : reportCommodityOf cfgSEK true (some "EUR") = .ok (some "EUR") := by decide
+
+/-- F192, pinned `get_input_type`: `suffix: self.input_fs_ext.clone()` as given -/
+def fsInput_pinned (env : Env) (dir ext : String) : Input := .fs (atCwd env dir) ext
+
+/-- F192 witness: `--input.fs.ext .txn` keeps the dot (and then matches no file: `Path::extension` never has
+    one), while `suffix = ".txn"` in the file means `txn` -/
+theorem F192_witness_pinned :
+    fsInput_pinned envX "/d" ".txn" = .fs "/d" ".txn" ∧
+    inputOfStorage envX { cfgSEK with fs := some ("/d", ".txn") } .fs = .ok (.fs "/d" "txn") := by decide
+theorem F192_fixed :
+    getInputType envX cfgSEK { inputFsDir := some "/d", inputFsExt := some ".txn" } = .ok (.fs "/d" "txn") := by decide
+
 end C19
 end Tackler
